@@ -6,8 +6,23 @@ FAMS = {1: ("long_identifier", "8,510,511,512,513,700"), 2: ("long_number", "9,1
 def jobs(tier):
     return [vp.Job("robust_asm.%s" % nm, "robust_asm.cpp", {"FAMILY": f, "LENGTHS": lens}, extra_bc=["naken_asm"], max_paths=5000, timeout=900, min_completed=1, max_steps=60000000, max_violations=30)
             for f, (nm, lens) in sorted(FAMS.items())]
+def sweep_jobs(tier):
+    # every instruction form of C13's table with its last numeric literal replaced by a symbolic signed 32-bit value
+    import re, C13
+    js = []
+    rx = re.compile(r"(?<![A-Za-z_$%.\d\[])(0x[0-9a-fA-F]+|\d+)(?![A-Za-z_\d])")
+    for k, (cpu, ins) in enumerate(C13.TRUNC):
+        ms = list(rx.finditer(ins))
+        if not ms: continue
+        if tier == "quick" and k % 2 != 0: continue
+        m = ms[-1]
+        pre, post = ins[:m.start()], ins[m.end():]
+        d = {"CPUNAME": '"%s"' % cpu, "PRE": '"%s"' % pre, "POST": '"%s"' % post, "MODE": 3, "W": 32, "LO": "0LL", "HI": "0LL", "BPA": 1}
+        js.append(vp.Job("operand_sweep." + C13.trunc_name(cpu, ins), "operands.cpp", d, max_paths=20000, timeout=300, min_completed=1, allow_partial=True, max_steps=20000000))
+    return js
+
 def main(tier):
-    js = jobs(tier)
+    js = jobs(tier) + sweep_jobs(tier)
     # recorded finding: an image that wraps past 0xffffffff makes every writer walk 2^32 addresses
     js.append(vp.Job("robust_asm.address_wrap.known", "robust_asm.cpp", {"FAMILY": 12, "LENGTHS": "1"}, extra_bc=["naken_asm"], max_paths=10, timeout=300, min_completed=0, max_steps=30000000))
     return vp.check_property("C16", tier, js,
@@ -15,6 +30,7 @@ def main(tier):
         "bodies / argument lists / names, define chains up to and beyond the nesting limit, mutually recursive defines, parenthesis and conditional nesting up to 20000 / 5000 levels, extreme directive operands; "
         "the engine bounds-checks every load and store against its object (token[512], params[1024], params_ptr[256], macro[], stack[] ...), bounds the call depth and the step count, and the "
         "verdict (status 0 or 1, diagnostic on failure) is asserted on every path.",
-        ["sources are generated per family with a length/depth chosen by the engine from the listed values (checks/C16.py); characters inside a run are one class (the tokenizer treats them alike)",
+        ["operand_sweep jobs: each instruction form of checks/C13.py TRUNC that has a numeric literal (every second in the quick tier) is assembled by the real two-pass flow with that literal replaced by a SYMBOLIC signed 32-bit value in decimal: termination (step budget 2e7), object bounds of every access, at most 64 emitted bytes",
+         "sources are generated per family with a length/depth chosen by the engine from the listed values (checks/C16.py); characters inside a run are one class (the tokenizer treats them alike)",
          "unstructured byte soup and interactions between families are outside the bound; single-character corruptions of valid programs are covered under C12",
          "call depth bound 3000 frames, step bound 6e7 per path"])
